@@ -33,11 +33,139 @@ def attr(e):
     return "if" if h in ("then", "else") else h
 
 
+# ---- siblings whose subschemas are references (same document and another document) ----
+OTHER = "http://h.invalid/c05/other.json"
+REF_STORE = {OTHER: {"d": {"type": "integer"}, "e": {"type": "string", "minLength": 2},
+                     "definitions": {"y": {"type": "boolean"}, "z": {"enum": [[]]}}}}
+REF_DEFS = {"y": {"type": "string"}, "z": {"type": "object", "required": ["q"]},
+            "o": {"$ref": OTHER + "#/d"}}
+REF_INSTANCES = [1, "s", "long", True, None, [1, "s"], ["s"], [], {"a": 1}, {"a": "s", "b": 1}, {"a": True, "q": 0}, {}]
+
+
+def ref_slots(d):
+    loc_y, loc_z, oth_d, oth_e = ({"$ref": "#/definitions/y"}, {"$ref": "#/definitions/z"},
+                                  {"$ref": OTHER + "#/d"}, {"$ref": OTHER + "#/e"})
+    via = {"$ref": "#/definitions/o"}
+    slots = [
+        ("properties", {"a": loc_y, "b": oth_d}), ("properties", {"a": oth_e, "b": loc_z}),
+        ("items", loc_y), ("items", oth_d), ("items", [oth_d, loc_y]),
+        ("additionalProperties", loc_y), ("additionalProperties", oth_d),
+        ("patternProperties", {"^a": loc_y, "^b": oth_e}),
+        ("dependencies", {"a": loc_z}), ("dependencies", {"a": oth_d, "b": loc_y}),
+    ]
+    if d >= 4:
+        slots += [("not", oth_d), ("not", oth_e), ("not", loc_y), ("not", via),
+                  ("allOf", [loc_y, oth_d]), ("allOf", [oth_e, loc_z]),
+                  ("anyOf", [oth_d, loc_y]), ("anyOf", [oth_e, oth_d]),
+                  ("oneOf", [oth_d, loc_y]), ("oneOf", [oth_d, oth_e, loc_z])]
+    else:
+        slots += [("disallow", [oth_d]), ("disallow", [loc_y, oth_e]), ("disallow", [via]),
+                  ("extends", [loc_y, oth_d]), ("extends", oth_e),
+                  ("type", [oth_d, loc_y]), ("type", [oth_e, "null"])]
+    if d >= 6:
+        slots += [("contains", oth_d), ("contains", loc_y), ("propertyNames", oth_e), ("propertyNames", loc_y)]
+    if d == 7:
+        slots += [("if", oth_d), ("if", loc_y), ("then", loc_y), ("else", oth_e), ("then", oth_d), ("else", loc_z)]
+    return slots
+
+
+def ref_schemas(d):
+    slots = ref_slots(d)
+    out = []
+    for i, (k1, v1) in enumerate(slots):
+        for j, (k2, v2) in enumerate(slots):
+            if k1 == k2:
+                continue
+            if {k1, k2} <= {"then", "else"}:
+                continue
+            S = {k1: v1, k2: v2, "definitions": REF_DEFS}
+            if d == 7 and ("then" in S or "else" in S) and "if" not in S:
+                S = dict([("if", {"$ref": OTHER + "#/d"})] + list(S.items()))
+            out.append(S)
+    # three siblings: a probe that abandons its iteration between two keywords that resolve local references
+    probes = [s for s in slots if s[0] in ("not", "disallow", "contains", "if", "oneOf", "anyOf")]
+    users = [s for s in slots if s[0] in ("properties", "items", "additionalProperties", "allOf", "extends")]
+    for (kp, vp) in probes:
+        for (ka, va) in users:
+            for (kb, vb) in users:
+                if len({kp, ka, kb}) == 3:
+                    out.append({ka: va, kp: vp, kb: vb, "definitions": REF_DEFS})
+    return out
+
+
+def ref_validator(d, S):
+    from jsonschema import RefResolver
+    cls = _e1.CLS[d]
+    r = RefResolver.from_schema(S, id_of=cls.ID_OF, store=json.loads(json.dumps(REF_STORE)))
+    return cls(S, resolver=r)
+
+
+def ref_check(d, S, x):
+    """(n_errors, problem or None): decomposition half for schemas whose subschemas are references."""
+    try:
+        errors = list(ref_validator(d, S).iter_errors(x))
+    except Exception as e:
+        return 0, ("crash", type(e).__name__, None)
+    whole = {}
+    for e in errors:
+        whole.setdefault(attr(e), []).append(_e1.ident(e))
+    extra = set(whole) - set(S)
+    if extra:
+        return len(errors), ("unattributed", sorted(map(str, extra)), None)
+    for k in S:
+        if k == "definitions":
+            continue
+        names = [k] + consult(d, k) + ["definitions"]
+        Sk = {kk: vv for kk, vv in S.items() if kk in names}
+        try:
+            part = sorted((_e1.ident(e) for e in ref_validator(d, Sk).iter_errors(x) if attr(e) == k), key=repr)
+        except Exception as e:
+            return len(errors), ("crash-alone", type(e).__name__, None)
+        mine = sorted(whole.get(k, []), key=repr)
+        if part != mine:
+            return len(errors), ("decomp", k, {"alone": part, "in_schema": mine})
+    return len(errors), None
+
+
+def run_refs(unit, ctx):
+    d, _, shard, n = unit
+    lst = ref_schemas(d)
+    ev = nt = nsch = 0
+    viol, samples, outcomes = [], [], {}
+    for i in range(shard, len(lst), n):
+        S = lst[i]
+        if not _e1.accepted(d, S):
+            continue
+        nsch += 1
+        for x in REF_INSTANCES:
+            ev += 1
+            cnt, prob = ref_check(d, S, x)
+            if cnt:
+                nt += 1
+            key = "ref-errors=%d" % min(cnt, 6)
+            outcomes[key] = outcomes.get(key, 0) + 1
+            if prob is not None:
+                sig = "C05|refs|%s|%s|on-%s" % (prob[0] if prob[0] != "crash" else "crash-" + prob[1],
+                                                "+".join(k for k in S if k != "definitions"), spec.jtype(x))
+                viol.append({"signature": sig, "size": len(str(S)) + len(str(x)),
+                             "case": {"draft": d, "schema": S, "instance": x, "refs": True},
+                             "detail": {"kind": prob[0], "keyword": prob[1], "diff": prob[2]}})
+        if not samples:
+            samples.append({"draft": d, "schema": S, "instance": REF_INSTANCES[i % len(REF_INSTANCES)], "store": [OTHER]})
+    return {"evaluations": ev, "nontrivial": nt, "violations": viol, "samples": samples, "outcomes": outcomes,
+            "counters": {"ref_schemas_accepted": nsch}}
+
+
 def plan(ctx):
     units, sizes = _e1.make_units(ctx, kinds=("singles", "pairs", "groups", "nested"))
+    for d in _e1.DRAFTS:
+        sizes["ref_sibling_schemas_d%d" % d] = len(ref_schemas(d))
+        units += [(d, "refs", i, 6) for i in range(6)]
     return {
         "units": units,
-        "rule": ("G(draft) x U as in C01 (singles, all ordered pairs, sibling groups, nested); one "
+        "rule": ("REFERENCES: every ordered pair of keyword slots (and probe-between-two-users triples) whose "
+                 "subschemas are $ref's into the same document and into a store document (same pointers, other "
+                 "meaning) x 12 instances, decomposition half only.  G(draft) x U as in C01 (singles, all ordered pairs, sibling groups, nested); one "
                  "list(iter_errors) per case feeds (a) the per-keyword decomposition against the keyword alone "
                  "with its consulted siblings and (b) the location-multiset comparison with the reference "
                  "evaluator; cases are distinct by construction; non-trivial = the instance has at least one "
@@ -121,6 +249,8 @@ def fails_like(d, S, x, kind):
 
 
 def run_unit(unit, ctx):
+    if unit[1] == "refs":
+        return run_refs(unit, ctx)
     d = unit[0]
     U = list(_e1.get_universe(ctx.tier, "pairs-small" if unit[1] == "pairs" else unit[1]))
     xkeys = [json.dumps(x) for x in U]
@@ -171,6 +301,9 @@ def run_unit(unit, ctx):
 
 def replay(case, ctx):
     d, S, x = case["draft"], case["schema"], case["instance"]
+    if case.get("refs"):
+        n, prob = ref_check(d, S, x)
+        return {"reproduced": prob is not None, "errors": n, "problem": prob}
     if case.get("purity"):
         k1, k2 = json.dumps(S), json.dumps(x)
         try:
